@@ -94,7 +94,8 @@ class Guard:
                 signal.setitimer(signal.ITIMER_REAL, 30)
             return ("err", None)
         except RecursionError as e:
-            self.leaks.append(("RecursionError@%s" % what, what, e))
+            # (signature without the arguments of the call: one root cause, whatever the identifier)
+            self.leaks.append(("RecursionError@%s" % what.split("(")[0], what, e))
             return ("leak", e)
         except Exception as e:
             self.leaks.append((leak_signature(e), what, e))
@@ -167,6 +168,18 @@ def load_doc(gd, text, cfg):
         shutil.rmtree(d, ignore_errors=True)
 
 
+def _gfapy_errors_are_fine(f):
+    """C07 allows every gfapy.Error: one that escapes a call the harness did not wrap in a Guard is not a finding."""
+    def g(case):
+        try:
+            return f(case)
+        except GfapyError:
+            return {"nt": False, "gfapy_error_outside_guard": True}
+    g.__name__ = f.__name__
+    return g
+
+
+@_gfapy_errors_are_fine
 def prop_text(case):
     text, cfg = case["text"], case["cfg"]
     gd = Guard("input %r config %r" % (text, cfg))
@@ -181,7 +194,7 @@ def prop_text(case):
         st_, g = load_doc(gd, text, cfg)
         if st_ == "ok":
             exercise_gfa(gd, g)
-    return gd.finish({"nt": gd.reached, "as": case["as"], "vlevel": cfg["vlevel"]})
+    return gd.finish({"nt": gd.reached, "as": case["as"], "vlevel": cfg["vlevel"], "deep_nesting": text.count("\n") >= 400 or None})
 
 
 # ---------------------------------------------------------------- mutations
@@ -372,6 +385,12 @@ def st_text_case(draw):
 @st.composite
 def st_mutant_case(draw):
     r = draw(st.randoms(use_true_random=False))
+    if gen.fair(r, 0.012):
+        # groups nested several hundred levels deep (a chain g0 < g1 < ... < g1499): what a removal cascades through
+        k_ = gen.choice(r, "UO")
+        sfx = "+" if k_ == "O" else ""
+        base = "S\ta\t10\t*\n%s\tg0\ta%s\n" % (k_, sfx) + "\n".join("%s\tg%d\tg%d%s" % (k_, i, i - 1, sfx) for i in range(1, 1500))
+        return {"text": base, "as": "doc", "cfg": dict(st_cfg(r), dialect=None, version=None)}
     if gen.chance(r, 0.35):
         base = gen.choice(r, testdata())
     else:
@@ -418,6 +437,7 @@ VALUES2 = ["A+", "B-", "B+", "read2+", "read1-", "nope+", "B", "A", "o1", "u1", 
            "0", "1", "4$", "9$", "3", "10"]
 
 
+@_gfapy_errors_are_fine
 def prop_api(case):
     version, vlevel = case["version"], case["vlevel"]
     gd = Guard("api case %r" % (case,))
@@ -434,7 +454,7 @@ def prop_api(case):
             _k, li, meth, args = op[:4]
             st_, lines = gd.call("gfa.lines", lambda: g.lines + [g.header])
             if k == "line_rt" and st_ == "ok":
-                lines = [x for x in lines if x.record_type == op[4]]
+                st_, lines = gd.call("record types", lambda: [x for x in lines if x.record_type == op[4]])
             if st_ != "ok" or not lines:
                 continue
             l = lines[li % len(lines)]
@@ -505,6 +525,7 @@ def st_api_case(draw):
     return {"version": version, "vlevel": r.randrange(4), "ops": ops}
 
 
+@_gfapy_errors_are_fine
 def prop_cli(case):
     """bin/gfapy-validate on a file: exit status 0 (valid) or 1 (refused with the message of a gfapy.Error); no
     traceback, and the verdict is the one of Gfa.from_file(...).validate() in this process."""
